@@ -90,6 +90,8 @@ def doc_encode(w, cfg, t, x):
         return x
     if k == "cls":
         return encode_inst(w, cfg, t[1], x)
+    if k == "nt":
+        return encode_nt(w, cfg, t[1], x)
     if k == "union":
         return doc_encode_rt(w, cfg, x)  # "union-typed positions are encoded by runtime class"
     if k == "td":
@@ -112,6 +114,26 @@ def encode_inst(w, cfg, ci, x):
     return ("d", items)
 
 
+def encode_nt(w, cfg, ci, x):
+    """named tuples become tuples (whatever the strategy): item-wise by the declared field types (Converter); a
+    BaseConverter leaves a named tuple as the tuple it is"""
+    if cfg["gen"]:
+        return ("t", [doc_encode(w, cfg, f["ty"], v) for f, (_, v) in zip(w["classes"][ci]["fields"], x[2])])
+    return ("t", [nt_as_tuples(v) for _, v in x[2]])
+
+
+def nt_as_tuples(o):
+    """a value left as it is, read the way the canonicaliser reads unstructured data (named tuples as tuples)"""
+    t = o[0]
+    if t in ("l", "t", "q", "S", "F"):
+        return (t, [nt_as_tuples(e) for e in o[1]])
+    if t == "d":
+        return ("d", [(nt_as_tuples(k), nt_as_tuples(v)) for k, v in o[1]])
+    if t == "I":
+        return ("I", o[1], [(n, nt_as_tuples(v)) for n, v in o[2]])
+    return o
+
+
 def doc_encode_rt(w, cfg, x):
     """encoding by run-time class (Any / untyped / union positions)"""
     t = x[0]
@@ -126,6 +148,8 @@ def doc_encode_rt(w, cfg, x):
     if t == "d":
         return ("d", mkdict([(doc_encode_rt(w, cfg, a), doc_encode_rt(w, cfg, b)) for a, b in x[1]]))
     if t == "I":
+        if w["classes"][x[1]]["kind"] == "nt":
+            return encode_nt(w, cfg, x[1], x)
         return encode_inst(w, cfg, x[1], x)
     raise ValueError(x)
 
@@ -214,7 +238,7 @@ CFGS = [c for c in ALL_CFGS if c["detailed"]]  # detailed_validation is irreleva
 
 def run(chk: framework.Check):
     rng = chk.rng
-    G = gen.Gen(rng, unions=True)
+    G = gen.Gen(rng, unions=True, nt=True)
     drv = lean.Driver()
     n_worlds = 400 if chk.tier == "quick" else 4000
     corr_fail = []
@@ -239,7 +263,8 @@ def run(chk: framework.Check):
                     continue
                 for cfg in CFGS:
                     if not gen.supported(cfg, w, ty, roundtrip=False) or not all(
-                            gen.supported(cfg, w, ("cls", ci), roundtrip=False) for ci in inst_classes(x)):
+                            gen.supported(cfg, w, ("nt" if w["classes"][ci]["kind"] == "nt" else "cls", ci), roundtrip=False)
+                            for ci in inst_classes(x)):
                         # the declared type, or the class of an instance met at an Any-typed position, is outside
                         # the documented support of this converter class
                         chk.note("unsupported-by-converter-class")
